@@ -1,4 +1,5 @@
 import os
+import threading
 
 import xarray as xr
 import numpy as np
@@ -14,6 +15,9 @@ class SeismicZfpBackendArray(BackendArray):
         self.shape = shape
         self.dtype = dtype
         self.sgz_reader = sgz_reader
+        # With open_dataset(..., chunks=...) dask loads chunks from several threads at once, but the reader has a single
+        # file position (seek, then read) and one-entry caches: reads are serialised.
+        self.lock = threading.Lock()
 
     def __getitem__(self, key: indexing.ExplicitIndexer) -> np.typing.ArrayLike:
         return indexing.explicit_indexing_adapter(
@@ -47,9 +51,11 @@ class SeismicZfpBackendArray(BackendArray):
                             dtype=self.dtype)
 
         (min_il, max_il), (min_xl, max_xl), (min_z, max_z) = bounds
-        return self.sgz_reader.read_subvolume(min_il=min_il, max_il=max_il,
-                                              min_xl=min_xl, max_xl=max_xl,
-                                              min_z=min_z,   max_z=max_z)[tuple(post)]
+        with self.lock:
+            volume = self.sgz_reader.read_subvolume(min_il=min_il, max_il=max_il,
+                                                    min_xl=min_xl, max_xl=max_xl,
+                                                    min_z=min_z,   max_z=max_z)
+        return volume[tuple(post)]
 
 
 class SeismicZfpBackendEntrypoint(BackendEntrypoint):
